@@ -380,12 +380,71 @@ func ruleSortedRulesIdentity(c *Ctx) {
 	c.Check(hasG && hasI, rule, "Rule.Key()", "built from the group id and the id", P.pos(kf.Pos()), "")
 }
 
+// ruleRangeRulesOwnSlice: the sweep keeps one active set and edits it in place
+// (insertRule/deleteRule shift elements). What a finished segment stores must
+// therefore be its own copy — only the very last segment may keep the set
+// itself, nothing is edited after it.
+func ruleRangeRulesOwnSlice(c *Ctx) {
+	P := c.P
+	rule := c.Prop + "/index-identity"
+	fn := P.Func(plc, "buildRuleList")
+	rulesF := P.Field(plc, "rangeRules", "rules")
+	c.saw(fnName(fn))
+	isClone := func(v ssa.Value) bool {
+		cl, _ := callOf(v)
+		if cl == nil {
+			return false
+		}
+		b, ok := cl.Call.Value.(*ssa.Builtin)
+		if !ok || len(cl.Call.Args) == 0 {
+			return false
+		}
+		switch b.Name() {
+		case "append":
+			sl, ok := strip(cl.Call.Args[0]).(*ssa.Slice)
+			if ok && sl.Max != nil && isConstInt(0)(sl.Max) {
+				return true
+			}
+			return isNilConst(cl.Call.Args[0])
+		}
+		return false
+	}
+	n := 0
+	for _, st := range storesToField(fn, rulesF) {
+		n++
+		construct := fmt.Sprintf("rules stored for a segment #%d in %s", n, fnName(fn))
+		req := "a copy of the active set (append onto a zero-capacity slice), except for the last segment"
+		if isClone(st.Val) {
+			c.OK(rule, construct, req, P.instrPos(st))
+			continue
+		}
+		phi, ok := st.Val.(*ssa.Phi)
+		if !ok {
+			c.Viol(rule, construct, req, P.instrPos(st), "the stored slice is the active set itself")
+			continue
+		}
+		trackPhis[fn] = append(trackPhis[fn], phi)
+		cloned := &calledEv{name: "stored slice is a fresh copy on this path", match: func(x ssa.Instruction) bool { return x == ssa.Instruction(phi) && isClone(resolved(phi)) },
+			reset: func(x ssa.Instruction) bool { return x == ssa.Instruction(phi) }}
+		last := guardRel("last split point", "==", anyVal, func(v ssa.Value) bool {
+			b, ok := strip(v).(*ssa.BinOp)
+			return ok && b.Op == token.SUB && lenOf(anyVal)(b.X) && isConstInt(1)(b.Y)
+		})
+		s := st
+		_, fails := requireAt(P, fn, 0, []Ev{cloned, last}, func(x ssa.Instruction) bool { return x == ssa.Instruction(s) }, anyOf)
+		c.Check(len(fails) == 0, rule, construct, req, P.instrPos(st), failDesc(fails))
+	}
+	if n == 0 {
+		c.Undec(rule, "segments built in "+fnName(fn), "a store to rangeRules.rules", "", "")
+	}
+}
+
 func init() {
 	register("C13", "Placement rule updates are all-or-nothing and the key-range index is exact", func(c *Ctx) {
 		c.Group("C13/build-save-commit", "an update is published (config maps and key-range index) only after the new index was built and the update saved; every mutator commits its own patch under the write lock", func() { ruleCommitOrder(c) })
 		c.Group("C13/ownership", "the served maps and index are written only by the configuration's own methods, the patch commit and the loaders", func() { ruleRuleConfigOwnership(c) })
 		c.Group("C13/validity", "every segment is validated on the rule set that will apply (after override): non-empty, one leader at most, at least one voter or leader", func() { ruleValidityAtoms(c) })
-		c.Group("C13/index-identity", "the sweep building the key-range index drops a rule from the active set by its full (group id, id) key", func() { ruleSortedRulesIdentity(c) })
+		c.Group("C13/index-identity", "the sweep building the key-range index drops a rule from the active set by its full (group id, id) key", func() { ruleSortedRulesIdentity(c); ruleRangeRulesOwnSlice(c) })
 		c.Group("C13/borrowed-immutable", "rules handed out by the manager are never edited in place", func() { ruleBorrowedImmutable(c) })
 		c.Group("C13/load-and-save-keys", "rules are saved under their canonical key, mis-keyed entries are repaired at load, write errors abort", func() { ruleLoadRepair(c); ruleInitializeOrder(c) })
 	})
